@@ -99,6 +99,7 @@ class NetWorld(World):
         self.gcseam = GCSeam()
         self.names = NameSeam()
         self.alloc = SimAlloc(stats)
+        self.alloc.lazy_reuse = True  # every network is keyed in the op that creates it (see _add_net)
         alloc = self.alloc
         self._saved_hash = tc.TensorNetwork.__dict__.get("__hash__", None)
         tc.TensorNetwork.__hash__ = lambda tn: alloc.key(tn)
@@ -284,12 +285,14 @@ class NetWorld(World):
             raise Violation("C02/returned_wrong_type", f"{type(tn)}")
         if any(tn is m for m in self.nets):
             return
+        self.alloc.key(tn)  # keyed in the op that created it
         self.nets.append(tn)
         while len(self.nets) > 6:
             self.nets.pop(0)
 
     def apply(self, op):
         k = op["k"]
+        self.alloc.new_epoch()
         self.alloc.reuse = bool(op.get("reuse") or op.get("then_reuse"))
         fn = getattr(self, "_op_" + k, None)
         if fn is None:
